@@ -7,7 +7,7 @@ rows = []
 for f in sorted(glob.glob(os.path.join(os.path.dirname(os.path.dirname(os.path.abspath(__file__))), "seeded", "*", "meta.json"))):
     m = json.load(open(f))
     first = " ".join(l.strip() for l in m.get("needs_to_manifest", "").splitlines() if l.strip() and not l.startswith("#"))[:230]
-    det = ", ".join("%s %s" % (r["cmd"].split("check.sh ")[1].split()[0], "quick" if " quick" in r["cmd"] else "thorough") for r in m.get("ran", []) if r["exit"] == 1) or "-"
+    det = ", ".join("%s %s" % (r["cmd"].split("check.sh ")[1].split()[0], ("quick" if " quick" in r["cmd"] else "thorough") + ((" (--only " + r["cmd"].split("--only ")[1] + ")") if "--only " in r["cmd"] else "")) for r in m.get("ran", []) if r["exit"] == 1) or "-"
     before = [r for r in m.get("earlier_runs", [])]
     missed_before = sorted({r["cmd"].split("check.sh ")[1].split()[0] for r in before if r["exit"] != 1})
     rows.append("| %s | %s | %s | %s |" % (m["name"], first.replace("|", "/"), det, ("missed at first by " + ", ".join(missed_before)) if missed_before else ""))
